@@ -198,7 +198,10 @@ void k8_crypt(void) {
 
     VASSERT(L_kdf_calls == 1, "K8 KDF invoked exactly once");
     VASSERT(L_nfkd_calls == (ascii ? 0 : 1) && L_nfc_calls == 0, "K8 password normalised through the injected NFKD only when non-ASCII");
-    if (!ascii) for (int i = 0; i <= PWMAX && i < DEP_IN_COPY; ++i) VASSERT(L_nfkd_in_copy[i] == pw0[i], "K8 NFKD receives the caller's password");
+    if (!ascii) for (int i = 0; i <= PWMAX && i < DEP_IN_COPY; ++i) {
+        VASSERT(L_nfkd_in_copy[i] == pw0[i], "K8 NFKD receives the caller's password");
+        if (pw0[i] == '\0') break;
+    }
     VASSERT(L_kdf[0].pwlen == elen, "K8 KDF password length excludes the terminator");
     for (size_t i = 0; i < elen; ++i)
         VASSERT(L_kdf[0].pw_copy[i] == (uint8_t)expect[i], "K8 KDF password = NFKD(password)");
